@@ -67,7 +67,7 @@ SPEC = dict(
     theorems=["normTok_idempotent", "normTok_sublist", "FmtOk_refl", "FmtOk_trans", "FmtOk_symm", "check_sound",
               "check_complete", "FmtOk_spelled_out", "C19_partial"],
     steps=[], custom=[validate],
-    rule="every .sw file under /repo that the real parser accepts (thorough: all; quick: 330 seed-sampled), as it is and in "
+    rule="FIRST the generated-source stream of sv_c18 (3636 small programs: every binary/unary operator, chains, calls, literals in short and line-wrapping form in every statement position; item kinds x comment texts x blank-line runs; see checks/c18.py) under the default config and one other; THEN every .sw file under /repo that the real parser accepts (thorough: all; quick: 330 seed-sampled), as it is and in "
          "2-3 variants (blank lines, trailing blanks, re-indentation, CRLF, white space and `//`, `/* */`, `///` comments "
          "inserted at arbitrary token boundaries / line ends; deterministic in seed+path), under the default config and one "
          "(quick) / all (thorough, unmodified file) of: newline_style Windows/Unix, max_width 60/140, hard_tabs, "
